@@ -46,7 +46,7 @@ func (c *Ctx) text(label string) string {
 }
 
 // PathVarPrims are the primitive types used for typed path variables.
-var PathVarPrims = []Prim{Prims[0], Prims[0], Prims[6], Prims[7], Prims[8], Prims[9], Prims[10], Prims[12], Prims[1]}
+var PathVarPrims = []Prim{Prims[0], Prims[0], Prims[6], Prims[7], Prims[8], Prims[9], Prims[10], Prims[12], Prims[1], Prims[2], Prims[5], Prims[3], Prims[11]}
 
 // Composition draws a whole document from D_core.
 func (c *Ctx) Composition(o CompOpts) *Doc {
@@ -361,6 +361,11 @@ func (c *Ctx) Response(rich bool) *Response {
 			pos = "component-header"
 		}
 		h := &Header{Required: rapid.Bool().Draw(t, "rh_required"), Schema: c.ResponseHeaderSchema(pos)}
+		// (the legacy X-RateLimit-* pattern: still required, marked deprecated)
+		if rapid.IntRange(0, 5).Draw(t, "rh_deprecated") == 0 {
+			h.Deprecated = true
+			c.Tag("rheader:deprecated")
+		}
 		if asComponent {
 			cs := c.comps()
 			if cs.Headers == nil {
@@ -513,6 +518,12 @@ func (c *Ctx) RouterDoc(o RouterOpts) *Doc {
 	for _, tp := range c.Templates(o.MaxN, o.MaxDepth) {
 		pi := &PathItem{}
 		d.Paths[tp.String()] = pi
+		// (a path item may be declared before any of its operations exists: /reports: {})
+		if rapid.IntRange(0, 9).Draw(t, "path_item_without_operations") == 0 && len(d.Paths) > 1 {
+			pi.Description = "reserved"
+			c.Tag("path-item:no-operations")
+			continue
+		}
 		// (an upload host of its own, say: it does not move the path item under another base path)
 		if rapid.IntRange(0, 7).Draw(t, "path_item_servers") == 0 {
 			pi.Servers = []*Server{{URL: rapid.SampledFrom([]string{"https://uploads.example.com/v1", "https://files.example.com", "/files/v2"}).Draw(t, "path_item_server_url")}}
@@ -559,6 +570,22 @@ func (c *Ctx) RouterDoc(o RouterOpts) *Doc {
 				op.Parameters = ps
 			}
 			pi.SetOp(m, op)
+		}
+	}
+	// a reserved path item without operations that sorts before a literal sibling of its
+	// own parent (/orders/0reserved beside /orders/b): the sibling keeps its operations
+	if rapid.IntRange(0, 2).Draw(t, "reserved_sibling") == 0 {
+		for _, tpl := range SortedKeys(d.Paths) {
+			i := strings.LastIndex(tpl, "/")
+			last := tpl[i+1:]
+			if last == "" || strings.HasPrefix(last, "{") || len(d.Paths[tpl].Ops()) == 0 {
+				continue
+			}
+			if _, taken := d.Paths[tpl[:i+1]+"0reserved"]; !taken {
+				d.Paths[tpl[:i+1]+"0reserved"] = &PathItem{Description: "reserved, nothing published yet"}
+				c.Tag("path-item:reserved-sibling")
+				break
+			}
 		}
 	}
 	return d
@@ -829,8 +856,17 @@ func (c *Ctx) ParamsDoc(withPathVars bool, withBodies ...bool) *Doc {
 			}
 			break // the first variable only: everything before it is constant
 		}
+		realUsed := map[string]bool{}
 		mkParam := func(in string, level string) *Parameter {
 			if in == "header" {
+				// (header parameters real documents declare, next to their own X- headers)
+				if len(c.RealisticHeaders) > 0 && rapid.IntRange(0, 5).Draw(t, "realistic_header_param") == 0 {
+					if h := rapid.SampledFrom(c.RealisticHeaders).Draw(t, "realistic_header_name"); !realUsed[h] {
+						realUsed[h] = true
+						c.Tag("param:realistic-header-name")
+						return &Parameter{Name: h, In: "header", Required: rapid.Bool().Draw(t, "param_required"), Schema: &Schema{Type: "string"}}
+					}
+				}
 				return c.Param(in, c.SafeName("X-H", "pname"), rapid.Bool().Draw(t, "param_required"))
 			}
 			return c.Param(in, c.QueryName("q", "pname"), rapid.Bool().Draw(t, "param_required"))
@@ -1123,6 +1159,53 @@ func (c *Ctx) CorsDoc() *Doc {
 			}
 		}
 	}
+	// the Petstore shape: one operation of a path reads a credential header through its
+	// security scheme, another operation of the same path documents a header of that name
+	// as an ordinary parameter - the preflight names the header once
+	if d.Components != nil && len(d.Components.SecuritySchemes) > 0 {
+		for _, tpl := range SortedKeys(d.Paths) {
+			pi := d.Paths[tpl]
+			ops := pi.Ops()
+			if len(ops) < 2 || rapid.IntRange(0, 2).Draw(t, "credential_header_as_parameter") != 0 {
+				continue
+			}
+			header := ""
+			var reader *Operation
+			for _, mo := range ops {
+				for _, alt := range d.EffectiveSecurity(mo.Op) {
+					for _, name := range SortedKeys(alt) {
+						sch := d.Components.SecuritySchemes[name]
+						switch {
+						case sch == nil:
+						case sch.Type == "http" && strings.EqualFold(sch.Scheme, "bearer"):
+							header, reader = "Authorization", mo.Op
+						case sch.Type == "apiKey" && sch.In == "header":
+							header, reader = sch.Name, mo.Op
+						}
+					}
+				}
+			}
+			if header == "" {
+				continue
+			}
+			for _, mo := range ops {
+				if mo.Op == reader || len(d.EffectiveSecurity(mo.Op)) > 0 {
+					continue
+				}
+				dup := false
+				for _, pp := range append(append([]*Parameter{}, pi.Parameters...), mo.Op.Parameters...) {
+					if pp.In == "header" && strings.EqualFold(pp.Name, header) {
+						dup = true
+					}
+				}
+				if !dup {
+					mo.Op.Parameters = append(mo.Op.Parameters, &Parameter{Name: header, In: "header", Schema: &Schema{Type: "string"}})
+					c.Tag("cors:credential-header-also-a-parameter")
+				}
+				break
+			}
+		}
+	}
 	return d
 }
 
@@ -1137,6 +1220,34 @@ func (c *Ctx) JSONDoc() *Doc {
 	o.Methods = []string{"POST", "PUT", "PATCH", "GET"}
 	o.SchemaDepth = 3
 	d := c.Composition(o)
+	// inheritance several levels deep: Signed = allOf[$ref Document, ...], Document =
+	// allOf[$ref Resource, ...]
+	if rapid.IntRange(0, 2).Draw(c.T, "allof_chain") == 0 {
+		base := &Schema{Type: "object", Properties: map[string]*Schema{c.SafeName("p", "chainid"): {Type: "integer", Format: "int64"}, c.SafeName("p", "chainopt"): {Type: "string"}}}
+		base.Required = []string{SortedKeys(base.Properties)[0]}
+		prev := c.AddSchema(c.CompName("Resource", "chainbase"), base)
+		ok := c.AllowSchema(prev, "allof-member")
+		for lvl, n := 0, rapid.IntRange(2, 3).Draw(c.T, "allof_chain_levels"); ok && lvl < n; lvl++ {
+			own := &Schema{Type: "object", Properties: map[string]*Schema{c.SafeName("p", "chainown"): {Type: "string"}, c.SafeName("p", "chainown"): {Type: "boolean"}}}
+			own.Required = []string{SortedKeys(own.Properties)[0]}
+			level := &Schema{AllOf: []*Schema{prev, own}}
+			if !c.AllowSchema(level, "component") {
+				ok = false
+				break
+			}
+			next := c.AddSchema(c.CompName("Derived", "chainlevel"), level)
+			if !c.AllowSchema(next, "allof-member") || !c.AllowSchema(next, "request-body") {
+				delete(d.Components.Schemas, strings.TrimPrefix(next.Ref, RefSchemas))
+				break
+			}
+			prev = next
+			c.Tag("json:allOf-chain")
+		}
+		if ok && c.AllowSchema(prev, "request-body") && c.AllowSchema(prev, "response-body") {
+			d.Paths["/"+c.PlainName("chain", "chainpath")] = &PathItem{Post: &Operation{RequestBody: &RequestBody{Required: true, Content: JSONContent(prev)},
+				Responses: map[string]*Response{"200": {Description: Str("ok"), Content: JSONContent(prev)}}}}
+		}
+	}
 	// a nullable component list of objects without required properties, held by a
 	// property: its smallest non-null values are [] and [{}]
 	if rapid.IntRange(0, 2).Draw(c.T, "nullable_list_component") == 0 {
@@ -1360,4 +1471,32 @@ func DecorateForeign(t *rapid.T, raw []byte) ([]byte, int) {
 		return raw, 0
 	}
 	return out, n
+}
+
+// DecorateOps adds the annotations large API descriptions carry on operations and that
+// change nothing about how an operation is served: tags (several per operation, shared
+// between operations), `deprecated: true`, a summary.
+func DecorateOps(t *rapid.T, d *Doc) int {
+	if d == nil || len(d.Paths) == 0 || rapid.Bool().Draw(t, "decorate_ops") {
+		return 0
+	}
+	pool := []string{"accounts", "billing", "Admin API", "internal", "v2", "reports"}
+	n := 0
+	for _, tpl := range SortedKeys(d.Paths) {
+		for _, mo := range d.Paths[tpl].Ops() {
+			if k := rapid.IntRange(0, 3).Draw(t, "op_ntags"); k > 0 {
+				mo.Op.Tags = rapid.SliceOfNDistinct(rapid.SampledFrom(pool), k, k, rapid.ID[string]).Draw(t, "op_tags")
+				n++
+			}
+			if rapid.IntRange(0, 5).Draw(t, "op_deprecated") == 0 {
+				mo.Op.Deprecated = true
+				n++
+			}
+			if rapid.IntRange(0, 5).Draw(t, "op_summary") == 0 {
+				mo.Op.Summary = "Does the thing; see \"docs\" & <notes>"
+				n++
+			}
+		}
+	}
+	return n
 }
